@@ -325,6 +325,32 @@ def run(ctx):
                 r.fail(m, bad[0][0].ast, norm(bad[0][0].ast) + " before its check", "%s stores the value (%s) and validates afterwards: a rejected level is what the gate then compares against" % (m.short, norm(bad[0][0].ast)))
             else:
                 r.ok("%s: %d check(s) precede the store" % (m.short, len(rz)))
+    # ---------------------------------------------------------------- R10
+    r = ctx.rule("C10-R10", "SIBLING", "'written with a verbosity flag' means the same for every kind of output: a method of an output / IO class that overrides a flagged write keeps the "
+                 "overridden method's parameters in their positions (a flag word passed by position must not land in another parameter of the override)", reference=10)
+    from ..loader import ClassInfo as _CI
+    n10 = 0
+    for c in sorted(p.classes.values(), key=lambda k: k.qualname):
+        if not c.module.name.startswith(("clikit.api.io", "clikit.io")):
+            continue
+        for name, m in sorted(c.methods.items()):
+            if name.startswith("__"):
+                continue
+            for b in c.mro[1:]:
+                if isinstance(b, _CI) and name in b.methods:
+                    bm = b.methods[name]
+                    if "flags" not in bm.params:
+                        break
+                    n10 += 1
+                    if m.params[:len(bm.params)] == bm.params:
+                        r.ok("%s.%s keeps the parameter order of %s.%s" % (c.name, name, b.name, name))
+                    else:
+                        r.fail(m, m.node, "%s.%s%s vs %s.%s%s" % (c.name, name, tuple(m.params[1:]), b.name, name, tuple(bm.params[1:])), "%s.%s takes its parameters as %s, the method it overrides as %s: a call "
+                               "written for an Output that passes the flag word by position (`out.write(text, VERBOSE)`) hands it to another parameter of a %s - the text is written at every verbosity" %
+                               (c.name, name, tuple(m.params[1:]), tuple(bm.params[1:]), c.name))
+                    break
+    ctx.require(n10 >= 1, "no overriding flagged write method found in the I/O classes")
+
     return ctx.results
 
 
